@@ -12,7 +12,8 @@
    without it, finding C06-F1; the diff now draws such cells as blanks in the
    default attributes and the hypothesis is gone.)
    [wf_screen W H s]: all cells have display width 1 and non-empty text, rows
-   live below Screen.height <= H, the cursor is inside 0..W-1.  [Sync r t]:
+   live below Screen.height (which MAY exceed H: a float reaching below the last
+   terminal row; only rows < H are drawn), the cursor is inside the terminal.  [Sync r t]:
    terminal t shows exactly Renderer r's _last_screen (modulo attributes
    invisible on a blank), cursor = _cursor_pos, pen = ESC[0m, autowrap as the
    mode dictates, Vt100_Output._cursor_visible agrees with the terminal.
@@ -20,19 +21,20 @@
    erase().  The terminal is Model/C06_Terminal.v.
 
    FULL STATEMENT (property text), not proved in this generality:
-     forall screens with cells of width 1 AND 2 (wide cells followed by their
-     shadow, not straddling the right edge), visible(incremental) =
-     visible(from scratch); every cell write of a render lands in rows
-     < max(previous height, new height) and the cursor never goes below row
-     H-1 during a non-final render (no scroll).
-   What is missing: (1) wide cells (Model and correspondence cover them; the
-   proof needs the terminal's overwrite-half-of-a-wide-glyph cases in the
-   column loop); (2) rows-owned is proved for the final grid of an incremental
-   render (C06_rows_owned_partial), not for every intermediate write, and the
-   bound on the cursor row during a render is not proved (oracle only). *)
+     the same for screens with cells of width 1 AND 2 (wide cells followed by
+     their shadow, not straddling the right edge).
+   What is missing: (1) wide cells in the proof (Model, correspondence and
+   oracle cover them; the proof needs the terminal's overwrite-half-of-a-wide-
+   glyph cases in the column loop) - the only reason for the _partial suffix;
+   (2) the final render of an output that fills all H rows: its single scroll
+   (the newline below the output) is checked by the oracle, the exact shifted
+   grid is not stated as a theorem.
+   Proved since round 3: rows visited/written for EVERY intermediate token
+   (the C06_rows theorems), never-scrolls on the bounded terminal (C06_no_scroll_partial,
+   C06_done_no_scroll_partial), screens taller than the terminal. *)
 From Coq Require Import ZArith List Bool.
 From PTK Require Import Lib.Sx Lib.Py Model.C06_Terminal Model.C06_Renderer Model.C06_Run
-  Proofs.C06_TermFacts Proofs.C06_DiffFacts Proofs.C06_SyncFacts.
+  Proofs.C06_TermFacts Proofs.C06_RowFacts Proofs.C06_DiffFacts Proofs.C06_SyncFacts.
 Import ListNotations.
 Open Scope Z_scope.
 
@@ -69,7 +71,7 @@ Proof. exact (equiv_scratch W H fs tbs pvis HW HH Hpv). Qed.
 Theorem C06_render_shows_partial : forall r t cfg scr r' ks,
   Sync W H fs tbs pvis r t -> wf_screen W H scr ->
   r_render tbs fs r cfg false W H scr = (r', ks) ->
-  Final W fs tbs pvis cfg scr (trun W t ks).
+  Final W H fs tbs pvis cfg scr (trun W t ks).
 Proof. exact (render_notdone_final W H fs tbs pvis HW HH Hpv). Qed.
 
 (* Done epilogue: after the is_done render the cursor is at column 0 of the
@@ -88,6 +90,45 @@ Theorem C06_rows_owned_partial : forall r t cfg scr p r' ks,
   r_render tbs fs r cfg false W H scr = (r', ks) ->
   forall y x, Z.max (sh scr) (sh p) <= y -> tgrid (trun W t ks) y x = tgrid t y x.
 Proof. exact (render_frame W H fs tbs pvis HW HH Hpv). Qed.
+
+(* Rows visited and written during a non-final render ([okrun b1 b2]: after every
+   token the cursor row is <= b1; every text / erase-to-end-of-line token runs on
+   a row in 0..b2): the cursor never leaves the H rows of the terminal, and cells
+   are only written in the owned rows 0..max(previous height, new height)-1. *)
+Theorem C06_rows_render_partial : forall r t cfg scr r' ks,
+  Sync W H fs tbs pvis r t -> wf_screen W H scr -> 1 <= H ->
+  r_render tbs fs r cfg false W H scr = (r', ks) ->
+  okrun (H - 1) (Z.min (Z.max (sh scr) (prevh r)) H - 1) W t ks.
+Proof. exact (render_notdone_rows W H fs tbs pvis HW HH Hpv). Qed.
+
+(* ... the final render goes at most to the line below the output ... *)
+Theorem C06_rows_done_partial : forall r t cfg scr r' ks,
+  Sync W H fs tbs pvis r t -> wf_screen W H scr -> 1 <= H ->
+  r_render tbs fs r cfg true W H scr = (r', ks) ->
+  okrun (Z.max (H - 1) (Z.min (sh scr) H)) (Z.min (Z.max (sh scr) (prevh r)) H - 1) W t ks.
+Proof. exact (render_done_rows W H fs tbs pvis HW HH Hpv). Qed.
+
+(* ... and erase never moves below where it is. *)
+Theorem C06_rows_erase : forall r t r' ks b2,
+  Sync W H fs tbs pvis r t -> 1 <= H -> r_erase r = (r', ks) -> okrun (H - 1) b2 W t ks.
+Proof. exact (erase_rows W H fs tbs pvis). Qed.
+
+(* Never scrolls: on the BOUNDED terminal (H rows below the origin, a line feed on
+   the last row scrolls and is counted) every history of non-final renders and
+   erases leaves the scroll count unchanged and ends in exactly the state of the
+   unbounded terminal - so all theorems above hold on the bounded terminal. *)
+Theorem C06_no_scroll_partial : forall ops r t n,
+  Sync W H fs tbs pvis r t -> 1 <= H -> Forall (okop_nd W H) ops ->
+  run_seqB W H fs tbs r (t, n) ops =
+  (fst (run_seq W fs tbs r t ops), (snd (run_seq W fs tbs r t ops), n)).
+Proof. exact (seq_noscroll W H fs tbs pvis HW HH Hpv). Qed.
+
+(* The final render of an output that leaves a terminal row free does not scroll. *)
+Theorem C06_done_no_scroll_partial : forall r t cfg scr r' ks n,
+  Sync W H fs tbs pvis r t -> wf_screen W H scr -> 1 <= H -> Z.min (sh scr) H <= H - 1 ->
+  r_render tbs fs r cfg true W H scr = (r', ks) ->
+  trunB H W (t, n) ks = (trun W t ks, n).
+Proof. exact (render_done_bounded W H fs tbs pvis HW HH Hpv). Qed.
 
 (* erase(): cursor back at the origin, everything from the origin down blank,
    attributes reset, autowrap on, cursor shown, renderer back in sync. *)
@@ -112,6 +153,11 @@ Print Assumptions C06_equiv_partial.
 Print Assumptions C06_render_shows_partial.
 Print Assumptions C06_done_epilogue_partial.
 Print Assumptions C06_rows_owned_partial.
+Print Assumptions C06_rows_render_partial.
+Print Assumptions C06_rows_done_partial.
+Print Assumptions C06_rows_erase.
+Print Assumptions C06_no_scroll_partial.
+Print Assumptions C06_done_no_scroll_partial.
 Print Assumptions C06_erase_partial.
 Print Assumptions C06_sync_initial.
 
@@ -119,11 +165,11 @@ Print Assumptions C06_sync_initial.
    unstyled trailing blank is well formed. *)
 Example C06_wf_holds_somewhere :
   wf_screen 4 2 (mks 2 true 1 1 [(0, [(0, mkc [97] 2 1); (1, mkc [32] 3 1); (2, mkc [32] 0 1)]); (1, [])] []).
-Proof.
-  unfold wf_screen, nscreen, nrow, ncell; cbn [srows sh scx scy].
-  split; [repeat constructor; discriminate|]. split; [split; discriminate|]. split; [|repeat split; discriminate].
-  intros y Hy. cbn [sget].
-  destruct (0 =? y) eqn:E0; [apply Z.eqb_eq in E0; subst; exfalso; apply Hy; reflexivity|].
-  destruct (1 =? y) eqn:E1; [apply Z.eqb_eq in E1; subst; exfalso; apply Hy; reflexivity|reflexivity].
-Qed.
+Proof. exact wf_example. Qed.
 Print Assumptions C06_wf_holds_somewhere.
+
+(* ... and so is a screen taller than the terminal. *)
+Example C06_wf_tall_screen :
+  wf_screen 4 2 (mks 5 true 0 1 [(0, [(0, mkc [97] 2 1)]); (3, [(1, mkc [98] 0 1)])] []).
+Proof. exact wf_example_tall. Qed.
+Print Assumptions C06_wf_tall_screen.
